@@ -434,6 +434,37 @@ func (e *Env) Apply(op *Op) []string {
 		ls, blobs, now, fp, _ := e.doSign(op.S)
 		op.Blobs, op.Now, op.FP = blobs, now, fp
 		return ls
+	case "resign":
+		if e.f == nil {
+			return []string{"noimg"}
+		}
+		before := map[uint32]bool{}
+		for _, id := range inspect(e.f).ids {
+			before[id] = true
+		}
+		ls, blobs, _, _, serr := e.doSign(op.S)
+		if serr != nil || len(blobs) != 1 {
+			return append(ls, "resign-skip")
+		}
+		var nid uint32
+		for _, id := range inspect(e.f).ids {
+			if !before[id] {
+				nid = id
+			}
+		}
+		op.Blobs, op.ID = blobs, nid
+		if err := e.f.DeleteObject(nid, sif.OptDeleteDeterministic(), sif.OptDeleteCompact(true)); err != nil {
+			return []string{"resign-del-failed"}
+		}
+		di := sigObjectDI(blobs[0], op.S.Groups[0], 0, 1, op.FP, 0)
+		inp, err := di.build()
+		if err != nil {
+			return []string{"resign-build-failed"}
+		}
+		if err := e.f.AddObject(inp, sif.OptAddDeterministic()); err != nil {
+			return []string{"res " + errClass(err)}
+		}
+		return []string{"res ok"}
 	case "patch":
 		if e.f == nil {
 			return []string{"noimg"}
